@@ -820,7 +820,7 @@ class CompiledRouterNode:
                 # group-escape sequence. So we add an extra backslash to
                 # trick the parser into doing the right thing.
                 escaped_segment = re.sub(
-                    r'[\.\(\)\[\]\?\$\*\+\^\|]', r'\\\g<0>', raw_segment
+                    r'[\\\.\(\)\[\]\?\$\*\+\^\|]', r'\\\g<0>', raw_segment
                 )
 
                 pattern_text = _FIELD_PATTERN.sub(r'(?P<\2>.+)', escaped_segment)
